@@ -4,6 +4,7 @@
 #define VERIF_DIALECT_COMMON_H
 #include "common.h"
 #include <sstream>
+#include <set>
 #include "libdialect/commontypes.h"
 #include "libdialect/graphs.h"
 #include "libdialect/constraints.h"
@@ -44,5 +45,20 @@ inline double sepViolation(const SepLine &s, const Box &A, const Box &B, bool *o
     return v;
 }
 inline std::string sepcosSection(const std::string &tglf) { size_t p = tglf.find('#'); if (p == std::string::npos) return ""; p = tglf.find('#', p + 1); if (p == std::string::npos) return ""; return tglf.substr(p + 1); }
+// random connected simple graphs of several shapes (shared by the C14 and C19 monitors)
+inline void gen_graph(Rng &R, int &n, std::set<std::pair<int, int>> &E, std::string &kind) {
+    int k = (int)R.ri(0, 6); static const char *names[] = {"random-connected", "tree", "cycle", "ladder", "core-with-trees", "hub", "dense-core"};
+    kind = names[k];
+    n = R.coin(0.75) ? (int)R.ri(1, 16) : (int)R.ri(17, 60);
+    auto add = [&](int u, int v) { if (u == v) return; if (u > v) std::swap(u, v); E.insert({u, v}); };
+    if (k == 0) { for (int i = 1; i < n; i++) add((int)R.ri(0, i - 1), i); int extra = (int)R.ri(0, n / 2 + 1); for (int e = 0; e < extra; e++) add((int)R.ri(0, n - 1), (int)R.ri(0, n - 1)); }
+    else if (k == 1) { for (int i = 1; i < n; i++) add((int)R.ri(0, i - 1), i); }
+    else if (k == 2) { n = std::max(n, 3); for (int i = 0; i < n; i++) add(i, (i + 1) % n); }
+    else if (k == 3) { n = std::max(4, n / 2 * 2); int h = n / 2; for (int i = 0; i < h; i++) { add(i, i + h); if (i + 1 < h) { add(i, i + 1); add(i + h, i + 1 + h); } } }
+    else if (k == 4) { int core = std::max(3, std::min(n, (int)R.ri(3, 8))); n = std::max(n, core); for (int i = 0; i < core; i++) add(i, (i + 1) % core); if (core > 3 && R.coin()) add(0, core / 2); for (int i = core; i < n; i++) add((int)R.ri(0, i - 1), i); }
+    else if (k == 5) { n = std::max(n, 4); int deg = std::min(n - 1, (int)R.ri(3, 12)); for (int i = 1; i <= deg; i++) add(0, i); for (int i = deg + 1; i < n; i++) add((int)R.ri(0, i - 1), i); if (deg >= 3 && R.coin()) { add(1, 2); } }
+    else { n = std::min(std::max(n, 4), 12); for (int i = 1; i < n; i++) add((int)R.ri(0, i - 1), i); int extra = (int)R.ri(n, 2 * n); for (int e = 0; e < extra; e++) add((int)R.ri(0, n - 1), (int)R.ri(0, n - 1)); }
+}
+
 } // namespace dc
 #endif
